@@ -76,7 +76,7 @@ def main(path):
             env = dict(os.environ)
             env["RUSTFLAGS"] = "--cap-lints=warn"
             env["CARGO_NET_OFFLINE"] = "true"
-            env["CARGO_TARGET_DIR"] = os.path.join(K.TARGET_DIR, os.path.basename(ws.dir)) + "-playback"
+            env["CARGO_TARGET_DIR"] = K.PLAYBACK_TARGET
             p = subprocess.run(["cargo", "kani", "playback", "-p", ws.package, "-Z", "concrete-playback", "--", tname],
                                cwd=ws.dir, capture_output=True, text=True, env=env, timeout=1800)
             out = p.stdout + p.stderr
